@@ -643,6 +643,7 @@ func checkC15(c *Ctx) {
 	}
 	// (2b) R15f: the table collected from ALL files of the run (httpgen.GlobalUnwrapInfo)
 	c.checkGlobalTableReads("R15f")
+	c15ParameterSpelling(c)
 
 	// (3) OpenAPI: one fresh generator per service
 	if mainPk := c.P.Pkg("cmd/protoc-gen-openapiv3"); mainPk == nil {
@@ -835,4 +836,55 @@ func (c *Ctx) checkGlobalTableReads(rid string) {
 		})
 	}
 	r.Count("unwrap_table_reads", n)
+}
+
+// c15ParameterSpelling — R15g. Plugin parameters that are spellings of one option (format=yaml, format=yml, no format at
+// all; format=json alone or after another option; blanks around key and value) must select the same output: parseFormat is
+// interpreted on each spelling and the evaluated format value — which also names the output file — must be one value per group.
+func c15ParameterSpelling(c *Ctx) {
+	r := c.R
+	r.Rule("R15g", "spellings of one plugin option (yaml / yml / default; json alone or after another option) evaluate to one format value", 2)
+	pf := c.P.Func(cmdOpenAPI, "parseFormat")
+	if pf == nil {
+		r.Unres("R15g", "parseFormat", "", "not found in "+cmdOpenAPI)
+		return
+	}
+	pos := c.P.Pos(c.P.Decls[pf].Pos())
+	pc, pe := c.W.Concrete, c.W.ExternStructs
+	c.W.Concrete, c.W.ExternStructs = true, true
+	defer func() { c.W.Concrete, c.W.ExternStructs = pc, pe }()
+	str := func(s string) *string { return &s }
+	groups := []struct {
+		name  string
+		cases []*string
+	}{
+		{"YAML", []*string{nil, str(""), str("format=yaml"), str("format=yml"), str("paths=source_relative"), str("paths=source_relative,format=yml"), str("format=yml,paths=source_relative")}},
+		{"JSON", []*string{str("format=json"), str("paths=source_relative,format=json"), str("format=json,paths=source_relative")}},
+	}
+	for _, g := range groups {
+		got := map[string][]string{}
+		undec := false
+		for _, p := range g.cases {
+			label := "<no parameter>"
+			if p != nil {
+				label = fmt.Sprintf("%q", *p)
+			}
+			v, perr := c.evalParseFormat(pf, p)
+			if perr != "" {
+				r.Undec("R15g", "format parameter "+label, pos, perr)
+				undec = true
+				continue
+			}
+			got[v] = append(got[v], label)
+		}
+		if undec {
+			continue
+		}
+		var parts []string
+		for _, v := range sortedKeys(got) {
+			parts = append(parts, fmt.Sprintf("%s ← %s", v, strings.Join(got[v], ", ")))
+		}
+		r.CheckD(len(got) == 1, "R15g", "all spellings of the "+g.name+" format evaluate to one format value", pos,
+			"parseFormat maps spellings of the same option to different values ("+strings.Join(parts, "; ")+"): the value also names the output file, so the response depends on how the parameter is spelled", map[string]any{"values": parts})
+	}
 }
